@@ -196,7 +196,7 @@ public:
       {
         auto& level0 = _wheels[0];
         auto& bucket = level0.buckets[level0.currentTick & _tickMask];
-        collectFromBucket(bucket, toFire);
+        collectFromBucket(bucket, now, toFire);
         level0.currentTick++;
 
         if ((level0.currentTick & _tickMask) == 0)
@@ -533,7 +533,7 @@ private:
   /// skip entries that were placed correctly. Entries whose deadline
   /// is slightly in the future (placed between ticks) still fire —
   /// this matches the tick-granularity contract.
-  void collectFromBucket(Bucket& bucket,
+  void collectFromBucket(Bucket& bucket, TimePoint now,
                          std::vector<std::pair<TimerId, Callback>>& toFire)
   {
     auto* entry = bucket.head;
@@ -541,9 +541,21 @@ private:
     {
       auto* next = entry->next;
       bucket.unlink(entry);
-      _entryMap.erase(entry->id);
-      toFire.emplace_back(entry->id, std::move(entry->callback));
-      freeEntry(entry);
+      if (entry->deadline > now + _tickDuration)
+      {
+        // Drift catch-up walks buckets that lie ahead of the clock: an entry scheduled
+        // while the tick thread was stalled is not due yet. Put it back with what is
+        // left of its delay (at least one tick, so never into this bucket).
+        auto remaining = std::chrono::duration_cast<std::chrono::milliseconds>(
+          entry->deadline - now);
+        insertEntry(entry, remaining);
+      }
+      else
+      {
+        _entryMap.erase(entry->id);
+        toFire.emplace_back(entry->id, std::move(entry->callback));
+        freeEntry(entry);
+      }
       entry = next;
     }
   }
